@@ -11,17 +11,17 @@ import (
 func init() {
 	register(&Rule{
 		ID: "R09.1", Props: []string{"C09"}, Engine: "flow (taint)",
-		Text: "no unvalidated bytes escape a CAS buffer: in every exported consumption method of casReaderBuffer, casChunkReaderBuffer and casErrorHandlingBuffer the raw stream (the r field, or the result of toUnvalidated*/newErrorHandling*Reader) reaches the caller, a writer or a conversion helper only through newCASValidatingReader / newCASValidatingChunkReader (directly or through the type's toValidated* helper); raw values may only be closed, or handed out by the toUnvalidated* methods themselves",
+		Text:  "no unvalidated bytes escape a CAS buffer: in every exported consumption method of casReaderBuffer, casChunkReaderBuffer and casErrorHandlingBuffer the raw stream (the r field, or the result of toUnvalidated*/newErrorHandling*Reader) reaches the caller, a writer or a conversion helper only through newCASValidatingReader / newCASValidatingChunkReader (directly or through the type's toValidated* helper); raw values may only be closed, or handed out by the toUnvalidated* methods themselves",
 		Floor: 13, MustExist: true, Run: runR091,
 	})
 	register(&Rule{
 		ID: "R09.2", Props: []string{"C09", "C08"}, Engine: "guard (SSA dominance)",
-		Text: "verdicts are guarded: every notifyDataValid() of the CAS validators and eager constructors is dominated by (a) evidence that exactly the expected number of bytes was seen (bytesRemaining == 0 / size equality), (b) evidence that the stream ended (io.EOF from the underlying read, or the one-byte trailing probe followed by a passed size check), and (c) the equal edge of the comparison of the digest's hash with the hasher's sum; notifyCASHashMismatch / notifyCASSizeMismatch / notifyCASTooBig are called only on the failing edge of the corresponding comparison; every Source.notify* failure helper reports false to the callback and builds its error with the source's error code (INTERNAL for BackendProvided, INVALID_ARGUMENT for UserProvided)",
+		Text:  "verdicts are guarded: every notifyDataValid() of the CAS validators and eager constructors is dominated by (a) evidence that exactly the expected number of bytes was seen (bytesRemaining == 0 / size equality), (b) evidence that the stream ended (io.EOF from the underlying read, or the one-byte trailing probe followed by a passed size check), and (c) the equal edge of the comparison of the digest's hash with the hasher's sum; notifyCASHashMismatch / notifyCASSizeMismatch / notifyCASTooBig are called only on the failing edge of the corresponding comparison; every Source.notify* failure helper reports false to the callback and builds its error with the source's error code (INTERNAL for BackendProvided, INVALID_ARGUMENT for UserProvided)",
 		Floor: 12, MustExist: true, Run: runR092,
 	})
 	register(&Rule{
-		ID: "R09.4", Props: []string{"C09"}, Engine: "guard + order",
-		Text: "an integrity error is sticky and the final data is withheld: both validating Read methods return a previously stored error before touching the stream, store the error of the current step before returning it, and return no data together with an error; casValidatingChunkReader.Read finalises right after the last chunk and replaces the chunk by the error when finalisation fails",
+		ID: "R09.4", Props: []string{"C09", "C01"}, Engine: "guard + order",
+		Text:  "an integrity error is sticky and the final data is withheld: both validating Read methods return a previously stored error before touching the stream, store the error of the current step before returning it, and return no data together with an error; casValidatingChunkReader.Read finalises right after the last chunk and replaces the chunk by the error when finalisation fails",
 		Floor: 4, MustExist: true, Run: runR094,
 	})
 }
@@ -372,10 +372,47 @@ func runR092(c *Ctx) {
 					})
 					c.Check(!bad, name, "hash-mismatch-verdict", c.Pos(ins.Pos()), "reported only when the hashes differ", "a hash mismatch is reported although the hashes were not found different")
 				case isNotify(cc, "notifyCASSizeMismatch"), isNotify(cc, "notifyCASTooBig"):
-					ok := dominatedByCmp(ins.Block(), func(op token.Token, x, y ssa.Value) bool {
-						return op == token.NEQ || op == token.GTR || op == token.LSS || (op == token.EQL && isIOEOF(y))
-					})
-					c.Check(ok, name, "size-verdict", c.Pos(ins.Pos()), "reported only on the failing edge of a size comparison", "a size error is reported unconditionally")
+					isSizeOperand := func(v ssa.Value) bool {
+						found := false
+						backwardSlice(v, func(x ssa.Value) bool {
+							if f, _ := loadedField(x); f != nil && (f.Name() == "bytesRemaining" || f.Name() == "sizeBytes") {
+								found = true
+							}
+							if cl, ok := x.(*ssa.Call); ok {
+								if o := calleeObjOf(cl.Common()); o != nil && o.Name() == "GetSizeBytes" {
+									found = true
+								}
+								if bi, ok := cl.Call.Value.(*ssa.Builtin); ok && bi.Name() == "len" {
+									found = true
+								}
+							}
+							if p, ok := x.(*ssa.Parameter); ok && isIntVal(p) {
+								found = true // checkSize(n)
+							}
+							return !found
+						})
+						return found
+					}
+					sizeCmp := dominatedByCmpDepth(ins.Block(), func(op token.Token, x, y ssa.Value) bool {
+						return (op == token.NEQ || op == token.GTR || op == token.LSS) && (isSizeOperand(x) || isSizeOperand(y))
+					}, 2)
+					ended := dominatedByCmpDepth(ins.Block(), func(op token.Token, x, y ssa.Value) bool {
+						return op == token.EQL && (isIOEOF(y) || isIOEOF(x))
+					}, 2)
+					isReader := false
+					if g.Signature.Recv() != nil {
+						if n := recvNamed(g.Object().(*types.Func)); n != nil && (strings.HasSuffix(n.Obj().Name(), "Reader")) {
+							isReader = true
+						}
+					}
+					ok := sizeCmp || ended
+					why := "a size error is reported unconditionally"
+					if isNotify(cc, "notifyCASSizeMismatch") && isReader && !ended {
+						// a stream is too short only once it has ended: any other error of the source is an I/O error, not a verdict about the content
+						ok = false
+						why = "a streaming validator reports a size mismatch (a negative integrity verdict) on a path that is not the io.EOF edge of the underlying read: an I/O error of the source would be reported as corruption of healthy data, and the block quarantined"
+					}
+					c.Check(ok, name, "size-verdict", c.Pos(ins.Pos()), "reported only on the failing edge of a size comparison / at the end of the stream", why)
 				}
 			})
 		})
